@@ -309,6 +309,20 @@ func BinFor(beg, end int) uint32 {
 // OverlappingBinsFor returns the bin numbers for all bins overlapping
 // an interval covering [beg,end) (zero-based, half-close-half-open).
 func OverlappingBinsFor(beg, end int) []uint32 {
+	// Confine the region to the positions the index can
+	// hold: the bins are walked with unsigned counters.
+	const max = 1 << indexWordBits
+	if beg < 0 {
+		beg = 0
+	} else if beg > max {
+		beg = max
+	}
+	if end > max {
+		end = max
+	}
+	if end < beg {
+		end = beg
+	}
 	end--
 	list := []uint32{level0}
 	for _, r := range []struct {
